@@ -265,14 +265,16 @@ class Atomizer:
         raise NotImplementedError(op)
 
     def _congruence(self):
-        """functional consistency for atoms over opaque (non-variable) bases: equal arguments, equal values"""
+        """functional consistency for atoms over opaque (non-variable) bases: equal arguments, equal values;
+        also for two variables that both occur as plain reals (they may be equated by a path condition)"""
+        fv = {v.id for v in T.free_vars(self.out + self.axioms)}
         for tab, Ls in ((self.trig_vars, self.trigL), (self.hyp_vars, self.hypL)):
             ids = [i for i in tab if i in self.base_terms]
             for x in range(len(ids)):
                 for y in range(x + 1, len(ids)):
                     i, j = ids[x], ids[y]
                     bi, bj = self.base_terms[i], self.base_terms[j]
-                    if bi.op == "var" and bj.op == "var":
+                    if bi.op == "var" and bj.op == "var" and not (bi.id in fv and bj.id in fv):
                         continue
                     if bi.op == "const" and bj.op == "const":
                         continue
